@@ -150,9 +150,6 @@ def run_case(args):
                         rec['cvc5'] = r2
                         rec['cvc5_seconds'] = round(s2, 3)
                     rec['twin'] = twin_done
-                    if twin_done != 'sat':
-                        rec['verdict'] = 'inconclusive'
-                        rec['why'] = 'reachability twin of the path is %s (cannot exclude a vacuous pass)' % twin_done
                 elif r == 'sat':
                     if case.lemma:
                         rec['verdict'] = 'inconclusive'
@@ -188,6 +185,14 @@ def run_case(args):
         recs.append(dict(case=case.name, label='<case>', verdict='harness-error',
                          why="%s: %s" % (type(e).__name__, traceback.format_exc()[-1500:])))
     signal.setitimer(signal.ITIMER_REAL, 0)
+    # vacuity at case level: the explored paths partition the inputs, so an unsat on a path whose own
+    # reachability is undecided is still sound; but at least one path of the case must be shown reachable,
+    # otherwise unsatisfiable assumptions could make everything pass
+    if any(r.get('verdict') == 'unsat' and r.get('solver') for r in recs) and not stats.get('reachable_paths'):
+        for r in recs:
+            if r.get('verdict') == 'unsat' and r.get('solver'):
+                r['verdict'] = 'inconclusive'
+                r['why'] = 'no path of this case has a satisfiable reachability twin (cannot exclude a vacuous pass)'
     if not any(r.get('solver') for r in recs) and not any(r['verdict'] in ('inconclusive', 'harness-error') for r in recs):
         recs.append(dict(case=case.name, label='<case>', verdict='inconclusive',
                          why='no claim was reached on any feasible path (vacuous case)'))
